@@ -368,6 +368,9 @@ var nonNilResults = map[string]bool{
 	"errors.New": true, "fmt.Errorf": true, "bytes.NewReader": true, "io.NopCloser": true,
 }
 
+// clockReads: the injected time sources (tests replace them): their reads stay named reads whatever implements them.
+var clockReads = map[string]bool{"CurrentUnixNano": true, "ElapsedTime": true}
+
 // ---- default purity ----------------------------------------------------------------------------------
 
 var pureNames = map[string]bool{
@@ -2228,10 +2231,10 @@ func (ev *Evaluator) doCall(st *State, fr *Frame, c *ssa.CallCommon, instr ssa.I
 		}
 		// a call bound through a collaborator seam is the adapter the restructuring introduced: part of the caller
 		if !inline && devirt && ev.P.InScope[callee] {
-			// ... unless it is a function the upstream tree already has: then it is an ordinary call; and unless it is one
-			// of the observations the rules speak about by name (the clock, the stopwatch, the counters): those stay the
-			// named reads they are, whatever the implementing type is called
-			if _, known := refParamNames(ev.P.CanonFuncName(callee)); !known && !pureNames[callee.Name()] && !protocolNames[canonName(callee)] {
+			// ... unless it is a function the upstream tree already has: then it is an ordinary call; and unless it is a read
+			// of an injected time source (the clock, the stopwatch): those stay the named reads they are, whatever the
+			// implementing type is called
+			if _, known := refParamNames(ev.P.CanonFuncName(callee)); !known && !clockReads[callee.Name()] {
 				inline = true
 			}
 		}
